@@ -352,6 +352,13 @@ def execute(ctx, case: dict) -> None:
         if kind == "acl":
             obj = Acl(case["text"], platform=platform, max_ncwb=20, **kw)
             attach_members(obj, case.get("members", {}))
+            for pos, text in case.get("loose", []):
+                # entries put before / between the blocks of a grouped ACL through the list API (no regrouping there)
+                from cisco_acl import Remark  # pylint: disable=import-outside-toplevel
+
+                new = Remark(text, platform=platform) if text.startswith("remark") else Ace(text, platform=platform)
+                obj.insert(min(pos, len(obj.items)), new)
+                ctx.count("loose_entries_among_blocks")
         elif kind == "ace":
             obj = Ace(case["text"], platform=platform, max_ncwb=20, **kw)
             if case.get("src_items"):
@@ -472,12 +479,17 @@ def gen_case(rng):
                     cubes = [rand_cube(rng, 2) for _ in range(rng.randint(1, 4))]
                     members.setdefault(str(idx), {})[side] = [spell(rng, c, platform, "Address") for c in cubes]
         text = grammar.acl_header(platform, rng.choice(grammar.ACL_NAMES)) + "\n" + "\n".join("  " + ln for ln in lines)
+        loose = []
         if heading:
             kw["group_by"] = heading
+            if rng.random() < 0.35 and not numbered:
+                for n in range(rng.randint(1, 2)):
+                    loose.append([rng.choice([0, 0, 1, 2]), rng.choice([f"deny ip host 192.0.2.{66 + n} any", f"remark loose {n}",
+                                                                       f"permit tcp any any eq {4000 + n}"])])
         if rng.random() < 0.3:
             kw["input"] = ["interface Ethernet1/1"]
         return {"k": "acl", "platform": platform, "text": text, "members": members, "kwargs": kw,
-                "alias": rng.choice([0, 0, 1, 2])}
+                "alias": rng.choice([0, 0, 1, 2]), "loose": loose}
     if roll < 0.7:
         ace = grammar.gen_ace(rng, platform, version, foreign=False, allow_multi=False, ws=False, max_k=3)
         case = {"k": "ace", "platform": platform, "text": ace["text"], "kwargs": kw}
@@ -488,14 +500,14 @@ def gen_case(rng):
     if roll < 0.8:
         if rng.random() < 0.25:
             word = "object-group" if platform == "ios" else "addrgroup"
-            return {"k": "address", "platform": platform, "text": f"{word} G1",
+            return {"k": "address", "platform": platform, "text": f"{word} " + rng.choice(["G1", "dmz-addrgroup", "my-object-group-1"]),
                     "items": [spell(rng, rand_cube(rng, 2), platform, "Address") for _ in range(rng.randint(1, 4))]}
         return {"k": "address", "platform": platform, "text": spell(rng, rand_cube(rng, 4), platform, "Address")}
     if roll < 0.88:
         cube = rand_cube(rng, 2 if platform == "nxos" else 0)
         text = spell(rng, cube, platform, "AddressAg") or "host 10.0.0.1"
         if platform == "ios" and rng.random() < 0.1:
-            text = "group-object G7"
+            text = "group-object " + rng.choice(["G7", "prod-dmz", "top"])
         if platform == "nxos" and rng.random() < 0.3:  # IOS group members carry no sequence numbers natively
             text = f"{rng.randint(1, 999)} {text}"
         return {"k": "addressag", "platform": platform, "text": text}
@@ -506,7 +518,7 @@ def gen_case(rng):
         if text:
             members.append(text if platform == "ios" or rng.random() < 0.6 else f"{rng.randint(1, 999)} {text}")
     if platform == "ios" and rng.random() < 0.1:
-        members.append("group-object G7")
+        members.append("group-object " + rng.choice(["G7", "branch-office", "t"]))
     members = members or ["host 10.0.0.1"]
     header = "object-group network G1" if platform == "ios" else "object-group ip address G1"
     return {"k": "addrgroup", "platform": platform, "text": header + "\n" + "\n".join("  " + m for m in members)}
